@@ -16,4 +16,4 @@ for id in "$@"; do
 done
 cd /repo && git checkout -- . && git clean -fdq -e target
 # restore the evidence files written against the mutated tree
-cd /verif && git checkout -- evidence 2>/dev/null
+cd /verif && git checkout -- evidence/C??.json evidence/by-tier/*.quick.json 2>/dev/null
